@@ -2122,8 +2122,13 @@ evhttp_header_is_valid_value(const char *value)
 	const char *p = value;
 
 	while ((p = strpbrk(p, "\r\n")) != NULL) {
-		/* we really expect only one new line */
-		p += strspn(p, "\r\n");
+		/* only a single CRLF is allowed, and only as the start of a
+		 * continuation line: a run of line breaks ("\r\n\r\n ") would
+		 * end the header section early, and a bare CR or LF is not a
+		 * line terminator every parser agrees on */
+		if (p[0] != '\r' || p[1] != '\n')
+			return (0);
+		p += 2;
 		/* we expect a space or tab for continuation */
 		if (*p != ' ' && *p != '\t')
 			return (0);
